@@ -79,6 +79,10 @@ CHECKS = {
             "add / item assignment / property setters, both providers: after to_ical+from_ical nesting, names, parameters (+ only VALUE/TZID), decoded values and the RFC value class agree, and the emitted line satisfies the VALUE / TZID tag clause; repeated values keep their order; "
             "all call sequences of length <=3 (thorough 4) over a 12-call menu equal a plain tree model.",
             "trusted: refmodel/rfc_props.py (written from RFC 5545 3.7/3.8), rfc_text strict splitter, rfc_values regexes; decoded() not used as observer; one open finding (mixed-zone date lists) matched by input kind + exact observation", "3/C02"),
+    "C01": ("bounded-exhaustive enumeration of calendar texts in three layers (all component trees up to 4/5 nodes incl. forests; 10 line templates x all strings over a 14-symbol alphabet up to length 4/5 plus typed value lines; all ordered pairs/triples of a 40-line menu) parsed, serialised and re-parsed on the real code vs. a strict reference reader",
+            "Idempotence (tree, bytes, no rejection of own output) is checked for every input from_ical accepts; exactness (the first parse denotes exactly the reference reader's tree, and the input is not rejected) for every input the strict RFC reader accepts. "
+            "Mismatches are tolerated only if the observed tree equals the reference reader run with the documented placeholder defect model on a text that contains a trigger sequence (plus the documented TEXT normalisation acting on such a value).",
+            "trusted: refmodel/tree.py (strict structure reader), rfc_text.parse_line, the property type table; END names must match BEGIN to count as well-formed", "3/C01"),
 }
 REASON_PENDING = "check under construction in this session; not claimed until it has been built, silenced on the unchanged tree and shown to detect a seeded change"
 ALL = [f"C{i:02d}" for i in range(1, 21)]
